@@ -1,6 +1,6 @@
 """Glue between spec dicts (vlib.gen_fields) and cutplace objects."""
 from vlib import repo  # noqa: F401
-from vlib.gen_fields import field_row, format_rows
+from vlib.gen_fields import field_row, format_rows, last_named_field
 
 from cutplace import data, fields, interface
 
@@ -26,8 +26,37 @@ def field_format_for(field, data_format):
     return cls(field["name"], field["empty"], field["length"], field["rule"], data_format)
 
 
+# properties no field consults while it is being declared: their row may follow the field rows
+_LATE_PROPERTIES = ("allowed characters", "header", "encoding", "line delimiter", "sheet")
+
+
 def cid_rows(fmt, field_specs, check_rows=()):
-    return format_rows(fmt) + [field_row(f) for f in field_specs] + [list(r) for r in check_rows]
+    """The rows of the CID.  ``fmt["layout"]`` (optional) arranges them differently without changing what they mean:
+    'late-properties' moves the properties of _LATE_PROPERTIES behind the field rows (only Format has to come first),
+    'early-checks' puts every check directly behind the last field its rule names, 'both' does both."""
+    properties = format_rows(fmt)
+    field_rows = [field_row(f) for f in field_specs]
+    checks = [list(r) for r in check_rows]
+    layout = fmt.get("layout")
+    if not layout:
+        return properties + field_rows + checks
+    late = []
+    if layout in ("late-properties", "both"):
+        late = [row for row in properties[1:] if row[1].lower() in _LATE_PROPERTIES]
+        properties = [row for row in properties if row not in late]
+    body = list(field_rows)
+    tail = []
+    if layout in ("early-checks", "both"):
+        placed = {}
+        for check in checks:
+            placed.setdefault(last_named_field([f["name"] for f in field_specs], check[3]), []).append(check)
+        body = []
+        for index, row in enumerate(field_rows):
+            body.append(row)
+            body.extend(placed.get(index, []))
+    else:
+        tail = checks
+    return properties + body + late + tail
 
 
 def load_cid(rows, name="cid"):
